@@ -1,14 +1,16 @@
 ----------------------------- MODULE World_L0 -----------------------------
 (***************************************************************************)
-(* Property-level monitor for the "world" domain of amethyst/specs.        *)
+(* Property-level monitor for a specs World: entities, component storages  *)
+(* (all kinds, change-tracking wrappers, restricted views), lazy updates.  *)
 (*                                                                         *)
-(* L0 = what a user may rely on (properties C01 C02 C03 C04(part) C05 C08  *)
-(* C09 C17), and nothing more.  It is a *function* Step(w, ev, line) from  *)
-(* an abstract world state and one logged event to the next abstract state *)
-(* and a set of attributed violations.  The same function is used          *)
-(*   - by World_MC.tla, fed with the events the implementation-shaped      *)
-(*     model World_L1 produces (TLC checks L1 => L0 exhaustively), and     *)
-(*   - by World_Trace.tla, fed with events recorded from the real code.    *)
+(* L0 = what a user may rely on (properties C01 C02 C03 C04 C05 C08 C09    *)
+(* C12 C13 C17 and the world part of C19), and nothing more.  It is a      *)
+(* *function* Step(w, ev) from an abstract world state and one logged      *)
+(* event to the next abstract state and a set of attributed violations.    *)
+(* The same function is used                                               *)
+(*   - by World_MC / Store_MC, fed with the events the implementation-     *)
+(*     shaped models produce (TLC checks L1 => L0 exhaustively), and       *)
+(*   - by World_Trace, fed with events recorded from the real code.        *)
 (*                                                                         *)
 (* Abstract state (record w):                                              *)
 (*   issued  set of handles <<index, generation>> ever returned            *)
@@ -17,16 +19,24 @@
 (*           dropped unfinished; takes effect at the next maintain         *)
 (*   merged  handle -> BOOLEAN (creation already merged by a maintain)     *)
 (*   comp    sequence over storages of functions handle -> <<cid, val>>    *)
-(*   zst     sequence over storages of BOOLEAN (zero-sized component)      *)
+(*   zst     per storage: zero-sized component                             *)
+(*   trk     per storage: "none" | "flagged" | "deref" (change tracking)   *)
+(*   emit    per storage: event emission switched on                       *)
+(*   evq     per storage: events expected since the reader last read,      *)
+(*           each <<kind, index, optional>> with kind "I" | "M" | "R"      *)
 (*   lazyq   FIFO of queued lazy actions                                   *)
 (*   peak    largest number of simultaneously not-dead handles so far      *)
 (*   led     cid -> "held" | "returned" | "destroyed"   (C08 ledger)       *)
 (*   zdes, zret  zero-sized values destroyed by the library / handed back  *)
 (*   inm     inside World::maintain                                        *)
+(*   fault   a destructor has panicked in this world (C19): from then on   *)
+(*           leaks are allowed, double drops and stale reads are not       *)
 (*                                                                         *)
 (* Freedom left where the properties leave it: which index/generation a    *)
 (* creation returns (only "fresh" C01 and "below the peak" C17), the       *)
-(* generation reported inside errors.  Everything else is predicted.       *)
+(* generation reported inside errors, the Modified event that directly     *)
+(* follows the Inserted event of one vacant-entry insertion on             *)
+(* FlaggedStorage (optional), what is leaked after a destructor panic.     *)
 (*                                                                         *)
 (* Value encoding (chosen so TLC never compares values of different        *)
 (* types): a component is <<cid, val>>, absence is <<>>, a refused         *)
@@ -49,11 +59,13 @@ W0(cfg) ==
   [ issued |-> {}, status |-> <<>>, merged |-> <<>>,
     comp   |-> [s \in 1..cfg.S |-> <<>>],
     zst    |-> [s \in 1..cfg.S |-> cfg.zst[s]],
+    trk    |-> [s \in 1..cfg.S |-> IF Has(cfg, "trk") THEN cfg.trk[s] ELSE "none"],
+    emit   |-> [s \in 1..cfg.S |-> TRUE],
+    evq    |-> [s \in 1..cfg.S |-> <<>>],
     lazyq  |-> <<>>, peak |-> 0, led |-> <<>>, zdes |-> 0, zret |-> 0,
-    inm    |-> FALSE, tid |-> cfg.tid ]
+    inm    |-> FALSE, fault |-> FALSE, tid |-> cfg.tid ]
 
 NotDead(w) == {h \in w.issued : w.status[h] # "dead"}
-IsDead(w, h) == h \in w.issued /\ w.status[h] = "dead"
 \* a handle the monitor has never seen is treated as dead (harness never sends one)
 DeadOrUnknown(w, h) == h \notin w.issued \/ w.status[h] = "dead"
 
@@ -64,14 +76,42 @@ LedSet(led, cid, v) == IF cid = 0 THEN led ELSE FnSet(led, cid, v)
 LedSetAll(led, cids, v) ==
   [c \in DOMAIN led \cup (cids \ {0}) |-> IF c \in cids THEN v ELSE led[c]]
 
+SeqToSet(q) == {q[i] : i \in 1..Len(q)}
+
+SortedById(S) ==   \* sequence of the handles in S, ascending index
+  LET ids == {h[1] : h \in S}
+      RECURSIVE Build(_, _)
+      Build(rest, acc) == IF rest = {} THEN acc
+                          ELSE LET m == CHOOSE x \in rest : \A y \in rest : x <= y
+                               IN Build(rest \ {m}, acc \o <<CHOOSE h \in S : h[1] = m>>)
+  IN Build(ids, <<>>)
+
 \* ---------------------------------------------------------------------
-\* deletion taking effect for a set of handles: status dead, components
-\* purged from every storage, nothing else touched               (C02, C05)
-Purge(w, hs) ==
-  LET gone == {w.comp[s][h][1] : <<s, h>> \in {p \in (DOMAIN w.comp) \X hs : p[2] \in DOMAIN w.comp[p[1]]}}
-      nz   == Cardinality({p \in (DOMAIN w.comp) \X hs : w.zst[p[1]] /\ p[2] \in DOMAIN w.comp[p[1]]})
+\* change tracking (C12): expected events of storage s
+Ev1(w, s, k, id, opt) ==
+  IF w.trk[s] = "none" \/ ~w.emit[s] THEN w
+  ELSE [w EXCEPT !.evq[s] = Append(@, <<k, id, opt>>)]
+
+\* mutable access to a present component: FlaggedStorage reports it when the
+\* access is handed out, DerefFlaggedStorage when it is dereferenced mutably
+EvMut(w, s, id, written) ==
+  IF w.trk[s] = "flagged" \/ (w.trk[s] = "deref" /\ written) THEN Ev1(w, s, "M", id, FALSE) ELSE w
+
+\* ---------------------------------------------------------------------
+\* deletion taking effect for a sequence of handles (in that order):
+\* status dead, components purged from every storage with one Removed
+\* event each, nothing else touched                           (C02, C05, C12)
+Purge(w, hq) ==
+  LET hs == SeqToSet(hq)
+      pairs == {p \in (DOMAIN w.comp) \X hs : p[2] \in DOMAIN w.comp[p[1]]}
+      gone == {w.comp[p[1]][p[2]][1] : p \in pairs}
+      nz   == Cardinality({p \in pairs : w.zst[p[1]]})
+      evs(s) == LET RECURSIVE E(_) E(k) == IF k > Len(hq) THEN <<>>
+                                           ELSE (IF hq[k] \in DOMAIN w.comp[s] THEN <<<<"R", hq[k][1], FALSE>>>> ELSE <<>>) \o E(k + 1)
+                IN IF w.trk[s] = "none" \/ ~w.emit[s] THEN <<>> ELSE E(1)
   IN [w EXCEPT !.status = [h \in w.issued |-> IF h \in hs THEN "dead" ELSE w.status[h]],
                !.comp   = [s \in DOMAIN w.comp |-> FnDel(w.comp[s], hs)],
+               !.evq    = [s \in DOMAIN w.comp |-> w.evq[s] \o evs(s)],
                !.led    = LedSetAll(w.led, gone, "destroyed"),
                !.zdes   = w.zdes + nz]
 
@@ -79,16 +119,17 @@ Purge(w, hs) ==
 \* plain-map semantics of one storage, restricted to live handles (C03, C04)
 Cur(w, s, h) == IF ~DeadOrUnknown(w, h) /\ h \in DOMAIN w.comp[s] THEN w.comp[s][h] ELSE Absent
 
-\* insert c for h; returns [w, res]; a dead handle refuses and the value is destroyed
+\* Storage::insert c for h; returns [w, res]; a dead handle refuses and the value
+\* is destroyed; overwriting swaps through a mutable access (Modified)
 DoInsert(w, s, h, c) ==
   IF DeadOrUnknown(w, h)
   THEN [w |-> [w EXCEPT !.led = LedSet(w.led, c[1], "destroyed"),
                          !.zdes = IF w.zst[s] THEN w.zdes + 1 ELSE w.zdes],
         res |-> Refused]
-  ELSE LET old == Cur(w, s, h) IN
-       [w |-> [w EXCEPT !.comp[s] = FnSet(w.comp[s], h, c),
-                         !.led = LedSet(w.led, c[1], "held")],
-        res |-> old]
+  ELSE LET old == Cur(w, s, h)
+           w1 == [w EXCEPT !.comp[s] = FnSet(w.comp[s], h, c), !.led = LedSet(w.led, c[1], "held")]
+       IN [w |-> IF old = Absent THEN Ev1(w1, s, "I", h[1], FALSE) ELSE Ev1(w1, s, "M", h[1], FALSE),
+           res |-> old]
 
 \* the value handed back by an operation is dropped by whoever received it
 GiveBack(w, s, v, who) ==
@@ -101,11 +142,20 @@ GiveBack(w, s, v, who) ==
 
 DoRemove(w, s, h) ==
   LET old == Cur(w, s, h) IN
-  [w |-> IF old = Absent THEN w ELSE [w EXCEPT !.comp[s] = FnDel(w.comp[s], {h})], res |-> old]
+  [w |-> IF old = Absent THEN w ELSE Ev1([w EXCEPT !.comp[s] = FnDel(w.comp[s], {h})], s, "R", h[1], FALSE),
+   res |-> old]
 
-DoWrite(w, s, h, val) ==   \* mutable access that writes val (val < 0: no write)
+\* n mutable accesses to h's component, writing val (val < 0: no write)
+RECURSIVE EvMutN(_, _, _, _, _)
+EvMutN(w, s, id, written, n) == IF n = 0 THEN w ELSE EvMutN(EvMut(w, s, id, written), s, id, written, n - 1)
+
+DoWriteN(w, s, h, val, n) ==
   LET old == Cur(w, s, h) IN
-  [w |-> IF old = Absent \/ val < 0 THEN w ELSE [w EXCEPT !.comp[s][h] = <<old[1], val>>], res |-> old]
+  [w |-> IF old = Absent THEN w
+         ELSE EvMutN(IF val < 0 THEN w ELSE [w EXCEPT !.comp[s][h] = <<old[1], val>>], s, h[1], val >= 0, n),
+   res |-> old]
+
+DoWrite(w, s, h, val) == DoWriteN(w, s, h, val, 1)
 
 \* ---------------------------------------------------------------------
 \* lazy queue: actions the harness cannot observe from inside ("silent":
@@ -135,22 +185,26 @@ Enqueue(w, a) ==
 \* ev.obs = [hs |-> handles probed, alive |-> BOOLEAN per probed handle,
 \*           walive |-> 0/1/2 per probed handle (2 = not asked),
 \*           join |-> handles yielded by (&entities).join(),
-\*           st |-> per storage [mask |-> indices, get |-> value per probed handle]]
-SortedById(S) ==   \* sequence of the handles in S, ascending index
-  LET ids == {h[1] : h \in S}
-      RECURSIVE Build(_, _)
-      Build(rest, acc) == IF rest = {} THEN acc
-                          ELSE LET m == CHOOSE x \in rest : \A y \in rest : x <= y
-                               IN Build(rest \ {m}, acc \o <<CHOOSE h \in S : h[1] = m>>)
-  IN Build(ids, <<>>)
+\*           st |-> per storage [mask |-> indices, get |-> value per probed handle,
+\*                               evs |-> events the registered reader received]]
 
 \* which property a sweep mismatch is charged to, by the kind of event
 AliveProp(w, ev) == IF w.inm \/ ev.op \in {"LazyRun", "MaintainEnd"} THEN "C09" ELSE "C02"
 CompProp(w, ev, h) ==
-  IF ev.op \in {"LazyRun", "MaintainEnd"} \/ (w.inm /\ ev.op \notin {"SOp"}) THEN "C09"
+  IF w.fault \/ ev.op = "Fault" THEN "C19"
+  ELSE IF ev.op \in {"LazyRun", "MaintainEnd"} \/ (w.inm /\ ev.op \notin {"SOp", "WOp"}) THEN "C09"
   ELSE IF ev.op = "SOp" THEN (IF DeadOrUnknown(w, ev.h) \/ DeadOrUnknown(w, h) THEN "C03" ELSE "C04")
+  ELSE IF ev.op = "WOp" THEN (IF ev.k \in {"restrict"} THEN "C13" ELSE "C04")
   ELSE IF DeadOrUnknown(w, h) THEN "C03"
   ELSE "C05"
+
+\* expected events (with optional ones) against the events actually received
+RECURSIVE EvMatch(_, _)
+EvMatch(exp, act) ==
+  IF exp = <<>> THEN act = <<>>
+  ELSE LET e == Head(exp) IN
+       \/ (act # <<>> /\ Head(act)[1] = e[1] /\ Head(act)[2] = e[2] /\ EvMatch(Tail(exp), Tail(act)))
+       \/ (e[3] /\ EvMatch(Tail(exp), act))
 
 ObsFlags(w, ev) ==
   IF ~Has(ev, "obs") THEN {}
@@ -162,15 +216,24 @@ ObsFlags(w, ev) ==
       wBad == {i \in 1..n : o.walive[i] # 2 /\ o.hs[i] \in w.issued /\ w.merged[o.hs[i]]
                             /\ (o.walive[i] = 1) # (w.status[o.hs[i]] # "dead")}
       joinBad == o.join # SortedById(nd)
-      stBad == {<<s, i>> \in (1..Len(o.st)) \X (1..n) : o.st[s].get[i] # Cur(w, s, o.hs[i])}
+      stBad == {p \in (1..Len(o.st)) \X (1..n) : o.st[p[1]].get[p[2]] # Cur(w, p[1], o.hs[p[2]])}
       maskBad == {s \in 1..Len(o.st) :
-                    {o.st[s].mask[k] : k \in 1..Len(o.st[s].mask)} # {h[1] : h \in DOMAIN w.comp[s]}
+                    SeqToSet(o.st[s].mask) # {h[1] : h \in DOMAIN w.comp[s]}
                     \/ Len(o.st[s].mask) # Cardinality(DOMAIN w.comp[s])}
+      evBad == {s \in 1..Len(o.st) : Has(o.st[s], "evs") /\ ~EvMatch(w.evq[s], o.st[s].evs)}
   IN   {F(AliveProp(w, ev), "is_alive mismatch", o.hs[i]) : i \in aliveBad}
   \cup {F("C02", "World::is_alive mismatch", o.hs[i]) : i \in wBad}
   \cup (IF joinBad THEN {F(AliveProp(w, ev), "entities join mismatch", o.join)} ELSE {})
   \cup {F(CompProp(w, ev, o.hs[p[2]]), "component lookup mismatch", <<p[1], o.hs[p[2]], o.st[p[1]].get[p[2]]>>) : p \in stBad}
   \cup {F(CompProp(w, ev, <<-1, -1>>), "mask mismatch", s) : s \in maskBad}
+  \cup {F("C12", "event stream mismatch (storage, expected, received)", <<s, w.evq[s], o.st[s].evs>>) : s \in evBad}
+  \cup (IF evBad # {} /\ ((ev.op = "WOp" /\ ev.k = "restrict") \/ (ev.op = "SOp" /\ ev.path \in {"r_get_other", "rl_get_other", "rm_get_other", "rm_get_other_mut"}))
+        THEN {F("C13", "events after an operation on a restricted storage (storage, expected, received)", <<s, w.evq[s], o.st[s].evs>>) : s \in evBad} ELSE {})
+
+\* after a sweep that read the event channels, the expectations start afresh
+AfterObs(w, ev) ==
+  IF ~Has(ev, "obs") THEN w
+  ELSE [w EXCEPT !.evq = [s \in DOMAIN w.evq |-> IF s <= Len(ev.obs.st) /\ Has(ev.obs.st[s], "evs") THEN <<>> ELSE w.evq[s]]]
 
 \* ---------------------------------------------------------------------
 \* events
@@ -194,9 +257,21 @@ Created(w, ev) ==
       f |-> (IF dup THEN {F("C01", "handle not fresh", h)} ELSE {})
        \cup (IF h[1] >= pk THEN {F("C17", "index not below peak of simultaneously not-dead entities", <<h, pk>>)} ELSE {})]
 
+\* a block of n entities created at once of which only ev.hs are kept (the
+\* others are deleted again before anything else happens); used to obtain live
+\* entities at far-apart indices
+Prealloc(w, ev) ==
+  LET hs == SeqToSet(ev.hs)
+      dup == \E h \in hs : h \in w.issued \/ \E g \in NotDead(w) : g[1] = h[1]
+      w1 == [w EXCEPT !.issued = w.issued \cup hs,
+                      !.status = [h \in w.issued \cup hs |-> IF h \in hs THEN "live" ELSE w.status[h]],
+                      !.merged = [h \in w.issued \cup hs |-> IF h \in hs THEN TRUE ELSE w.merged[h]]]
+  IN [w |-> [w1 EXCEPT !.peak = Max(w.peak, Cardinality(NotDead(w)) + ev.n)],
+      f |-> IF dup THEN {F("C01", "handle not fresh", ev.hs)} ELSE {}]
+
 Delete(w, ev) ==
   LET ok == ~DeadOrUnknown(w, ev.h) IN
-  [w |-> IF ok THEN Purge(w, {ev.h}) ELSE w,
+  [w |-> IF ok THEN Purge(w, <<ev.h>>) ELSE w,
    f |-> IF ev.ok # ok THEN {F("C02", "delete_entity result", <<ev.h, ev.ok>>)} ELSE {}]
 
 RECURSIVE Walk(_, _, _)
@@ -204,11 +279,10 @@ Walk(dead, hs, k) == IF k > Len(hs) THEN k
                      ELSE IF hs[k] \in dead THEN k ELSE Walk(dead \cup {hs[k]}, hs, k + 1)
 
 DeleteBatch(w, ev) ==
-  LET dead == {h \in {ev.hs[i] : i \in 1..Len(ev.hs)} : DeadOrUnknown(w, h)}
+  LET dead == {h \in SeqToSet(ev.hs) : DeadOrUnknown(w, h)}
       fp == Walk(dead, ev.hs, 1)
       ok == fp > Len(ev.hs)
-      pre == {ev.hs[i] : i \in 1..(fp - 1)}
-  IN [w |-> Purge(w, pre),
+  IN [w |-> Purge(w, SubSeq(ev.hs, 1, fp - 1)),
       f |-> IF ev.ok # ok \/ (~ok /\ ev.pos # fp - 1)
             THEN {F("C02", "delete_entities result/position", <<ev.hs, ev.ok, ev.pos>>)} ELSE {}]
 
@@ -217,10 +291,10 @@ EDelete(w, ev) ==
   [w |-> IF ok THEN [w EXCEPT !.status[ev.h] = "doomed"] ELSE w,
    f |-> IF ev.ok # ok THEN {F("C02", "Entities::delete result", <<ev.h, ev.ok>>)} ELSE {}]
 
-DeleteAll(w, ev) == [w |-> Purge(w, NotDead(w)), f |-> {}]
+DeleteAll(w, ev) == [w |-> Purge(w, SortedById(NotDead(w))), f |-> {}]
 
 MaintainBegin(w, ev) ==
-  LET w1 == Purge(w, {h \in w.issued : w.status[h] = "doomed"}) IN
+  LET w1 == Purge(w, SortedById({h \in w.issued : w.status[h] = "doomed"})) IN
   [w |-> [w1 EXCEPT !.merged = [h \in w.issued |-> TRUE], !.inm = TRUE], f |-> {}]
 
 LazyRun(w, ev) ==
@@ -253,13 +327,12 @@ LazyQueue(w, ev) ==
 \* storage operation through a handle.  ev.cls:
 \*   "read"    get / contains / lending get / restricted get_other / entry get
 \*   "write"   get_mut & friends, writes ev.val (or -1 for no write)
-\*   "insert"  insert / entry replace              (ev.c)
+\*   "insert"  insert / entry replace / occupied+vacant entry insert   (ev.c)
 \*   "orins"   entry().or_insert(ev.c)
 \*   "remove"  remove / occupied-entry remove
 \*   "gmod"    get_mut_or_default, then writes ev.val
-\* ev.res is what the real call reported, in the value encoding above;
-\* for "read" via contains the harness reports <<0,0>>-free booleans as
-\* ev.b instead of ev.res.
+\* ev.res is what the real call reported, in the value encoding above; for
+\* contains the harness reports the boolean ev.b instead.
 SOp(w, ev) ==
   LET s == ev.s  h == ev.h
       prop == IF DeadOrUnknown(w, h) THEN "C03" ELSE "C04"
@@ -272,26 +345,127 @@ SOp(w, ev) ==
                        \/ Has(ev, "ress_w") /\ \E i \in 2..Len(ev.ress_w) :
                              ev.ress_w[i] # (IF exp = Absent \/ ev.val < 0 THEN exp ELSE <<exp[1], ev.val>>)
       mk(w2, exp) == [w |-> w2, f |-> IF bad(exp) THEN {F(prop, "storage op result", <<ev.cls, ev.path, s, h, exp>>)} ELSE {}]
+      viaEntry == ev.path \in {"entry_replace", "entry_insert"}
   IN CASE ev.cls = "read"   -> mk(w, Cur(w, s, h))
-       [] ev.cls = "write"  -> LET r == DoWrite(w, s, h, ev.val) IN mk(r.w, r.res)
+       [] ev.cls = "write"  ->
+            LET r == DoWriteN(w, s, h, ev.val, IF Has(ev, "ress_w") THEN Len(ev.ress_w) ELSE 1) IN mk(r.w, r.res)
        [] ev.cls = "insert" ->
             \* the entry API refuses a dead handle before taking the value: the
             \* caller keeps it; Storage::insert consumes (and destroys) it
-            IF DeadOrUnknown(w, h) /\ ev.path \in {"entry_replace", "entry_insert"}
-            THEN mk(GiveBack(w, s, ev.c, "harness"), Refused)
+            IF DeadOrUnknown(w, h) /\ viaEntry THEN mk(GiveBack(w, s, ev.c, "harness"), Refused)
+            ELSE IF viaEntry /\ Cur(w, s, h) = Absent
+            THEN \* VacantEntry::insert: inserts, then hands the fresh value back mutably
+                 LET r == DoInsert(w, s, h, ev.c)
+                     w2 == IF w.trk[s] = "flagged" THEN Ev1(r.w, s, "M", h[1], TRUE) ELSE r.w
+                 IN mk(w2, r.res)
             ELSE LET r == DoInsert(w, s, h, ev.c) IN mk(GiveBack(r.w, s, r.res, "harness"), r.res)
        [] ev.cls = "orins"  ->
             IF DeadOrUnknown(w, h) THEN mk(GiveBack(w, s, ev.c, "harness"), Refused)
             ELSE LET old == Cur(w, s, h) IN
-                 IF old = Absent THEN LET r == DoInsert(w, s, h, ev.c) IN mk(r.w, ev.c)
-                 ELSE mk(GiveBack(w, s, ev.c, "library"), old)
+                 IF old = Absent
+                 THEN LET r == DoInsert(w, s, h, ev.c)
+                          w2 == IF w.trk[s] = "flagged" THEN Ev1(r.w, s, "M", h[1], TRUE) ELSE r.w
+                      IN mk(w2, ev.c)
+                 ELSE mk(EvMut(GiveBack(w, s, ev.c, "library"), s, h[1], FALSE), old)
        [] ev.cls = "remove" -> LET r == DoRemove(w, s, h) IN mk(GiveBack(r.w, s, r.res, "harness"), r.res)
        [] ev.cls = "gmod"   ->
             IF DeadOrUnknown(w, h) THEN mk(w, Absent)
             ELSE LET old == Cur(w, s, h)
-                     w1 == IF old = Absent THEN [w EXCEPT !.comp[s] = FnSet(w.comp[s], h, <<0, 0>>)] ELSE w
+                     w1 == IF old = Absent
+                           THEN Ev1([w EXCEPT !.comp[s] = FnSet(w.comp[s], h, <<0, 0>>)], s, "I", h[1], FALSE)
+                           ELSE w
                      r == DoWrite(w1, s, h, ev.val)
                  IN mk(r.w, r.res)
+
+\* ---------------------------------------------------------------------
+\* whole-storage operations.  ev.k:
+\*   "drain"    storage.drain().join() taking the first ev.n items (all if n < 0);
+\*              ev.items = <<<<index, value>>, ...>> as yielded
+\*   "clear"    storage.clear()
+\*   "count"    ev.n = count(), ev.b = is_empty()
+\*   "join"     (&storage).join() / lend_join / par_join: ev.items as yielded (par: sorted)
+\*   "joinmut"  (&mut storage).join() / lend_join / par_join: ev.items =
+\*              <<<<index, value before, value written or -1>>, ...>>
+\*   "joinent"  (&entities, &storage).join(): ev.items = <<<<handle, value>>, ...>>
+\*   "entries"  (&entities, storage.entries()).lend_join(): <<<<handle, value or <<>>>>, ...>>
+\*   "restrict" join over restrict()/restrict_mut() (ev.mode), per item
+\*              <<index, value read, mutably fetched?, value written or -1>>
+\*   "slice"    as_slice(): ev.kind "vec" (values at occupied indices, ev.items = <<<<index, value>>>>),
+\*              "defvec" (ev.vals = every slot), "dense" (ev.vals = the dense values)
+\*   "slicemut" as_mut_slice(), writing ev.writes = <<<<index or position, val>>>>
+\*   "setemit"  set_event_emission(ev.b)
+Members(w, s) == SortedById({h \in DOMAIN w.comp[s] : ~DeadOrUnknown(w, h)})
+
+WOp(w, ev) ==
+  LET s == ev.s
+      mem == Members(w, s)
+      prop == IF ev.k = "restrict" THEN "C13" ELSE "C04"
+      flag(b, what, exp) == IF b THEN {F(prop, what, <<ev.k, s, exp>>)} ELSE {}
+  IN CASE ev.k = "drain" ->
+            LET n == IF ev.n < 0 \/ ev.n > Len(mem) THEN Len(mem) ELSE ev.n
+                taken == SubSeq(mem, 1, n)
+                exp == [i \in 1..n |-> <<taken[i][1], w.comp[s][taken[i]]>>]
+                RECURSIVE Rm(_, _)
+                Rm(ww, i) == IF i > n THEN ww
+                             ELSE LET r == DoRemove(ww, s, taken[i]) IN Rm(GiveBack(r.w, s, r.res, "harness"), i + 1)
+            IN [w |-> Rm(w, 1), f |-> flag(ev.items # exp, "drained items", exp)]
+       [] ev.k = "clear" ->
+            LET all == DOMAIN w.comp[s]
+                gone == {w.comp[s][h][1] : h \in all}
+            IN [w |-> [w EXCEPT !.comp[s] = <<>>, !.led = LedSetAll(w.led, gone, "destroyed"),
+                                 !.zdes = IF w.zst[s] THEN w.zdes + Cardinality(all) ELSE w.zdes],
+                f |-> {}]
+       [] ev.k = "count" ->
+            [w |-> w, f |-> flag(ev.n # Cardinality(DOMAIN w.comp[s]) \/ ev.b # (DOMAIN w.comp[s] = {}), "count / is_empty", Cardinality(DOMAIN w.comp[s]))]
+       [] ev.k = "join" ->
+            LET exp == [i \in 1..Len(mem) |-> <<mem[i][1], w.comp[s][mem[i]]>>]
+            IN [w |-> w, f |-> flag(ev.items # exp, "joined items", exp)]
+       [] ev.k = "joinmut" ->
+            LET exp == [i \in 1..Len(mem) |-> <<mem[i][1], w.comp[s][mem[i]]>>]
+                got == [i \in 1..Len(ev.items) |-> <<ev.items[i][1], ev.items[i][2]>>]
+                RECURSIVE Wr(_, _)
+                Wr(ww, i) == IF i > Len(mem) \/ i > Len(ev.items) THEN ww
+                             ELSE Wr(DoWrite(ww, s, mem[i], ev.items[i][3]).w, i + 1)
+            IN [w |-> Wr(w, 1), f |-> flag(got # exp, "mutably joined items", exp)]
+       [] ev.k = "joinent" ->
+            LET exp == [i \in 1..Len(mem) |-> <<mem[i], w.comp[s][mem[i]]>>]
+            IN [w |-> w, f |-> flag(ev.items # exp, "items joined with entities", exp)]
+       [] ev.k = "entries" ->
+            LET nd == SortedById(NotDead(w))
+                exp == [i \in 1..Len(nd) |-> <<nd[i], Cur(w, s, nd[i])>>]
+            IN [w |-> w, f |-> flag(ev.items # exp, "entries join", exp)]
+       [] ev.k = "restrict" ->
+            LET exp == [i \in 1..Len(mem) |-> <<mem[i][1], w.comp[s][mem[i]]>>]
+                got == [i \in 1..Len(ev.items) |-> <<ev.items[i][1], ev.items[i][2]>>]
+                RECURSIVE Wr(_, _)
+                Wr(ww, i) == IF i > Len(mem) \/ i > Len(ev.items) THEN ww
+                             ELSE IF ev.items[i][3] THEN Wr(DoWrite(ww, s, mem[i], ev.items[i][4]).w, i + 1)
+                             ELSE Wr(ww, i + 1)
+            IN [w |-> Wr(w, 1), f |-> flag(got # exp, "items of restricted join", exp)]
+       [] ev.k = "slice" ->
+            IF ev.kind = "vec"
+            THEN LET exp == [i \in 1..Len(mem) |-> <<mem[i][1], w.comp[s][mem[i]]>>]
+                 IN [w |-> w, f |-> flag(ev.items # exp, "slice at occupied indices", exp)]
+            ELSE IF ev.kind = "defvec"
+            THEN LET occ == {h[1] : h \in SeqToSet(mem)}
+                     bad == \/ \E h \in SeqToSet(mem) : h[1] >= Len(ev.vals) \/ ev.vals[h[1] + 1] # w.comp[s][h]
+                            \/ \E i \in 1..Len(ev.vals) : (i - 1) \notin occ /\ ev.vals[i] # <<0, 0>>
+                 IN [w |-> w, f |-> flag(bad, "default-filled slice", mem)]
+            ELSE LET want == [i \in 1..Len(mem) |-> w.comp[s][mem[i]]]
+                     bad == Len(ev.vals) # Len(want)
+                            \/ \E v \in SeqToSet(want) \cup SeqToSet(ev.vals) :
+                                 Cardinality({i \in 1..Len(want) : want[i] = v}) # Cardinality({i \in 1..Len(ev.vals) : ev.vals[i] = v})
+                 IN [w |-> w, f |-> flag(bad, "dense slice is not a permutation of the stored values", want)]
+       [] ev.k = "slicemut" ->
+            \* ev.writes = <<<<index, cid, val>>>> : value cid at that index now has val
+            LET RECURSIVE Wr(_, _)
+                Wr(ww, i) == IF i > Len(ev.writes) THEN ww
+                             ELSE LET hs == {h \in DOMAIN ww.comp[s] : ww.comp[s][h][1] = ev.writes[i][2] /\ (ev.writes[i][1] < 0 \/ h[1] = ev.writes[i][1])}
+                                  IN IF hs = {} THEN Wr(ww, i + 1)
+                                     ELSE LET h == CHOOSE x \in hs : TRUE
+                                          IN Wr([ww EXCEPT !.comp[s][h] = <<ww.comp[s][h][1], ev.writes[i][3]>>], i + 1)
+            IN [w |-> Wr(w, 1), f |-> {}]
+       [] ev.k = "setemit" -> [w |-> [w EXCEPT !.emit[s] = ev.b], f |-> {}]
 
 \* end of a world: everything still held (in storages or in the lazy
 \* queue) is destroyed exactly once; compare with the instrumented ledger
@@ -301,27 +475,30 @@ DropWorld(w, ev) ==
       des == {c \in DOMAIN w.led : w.led[c] = "destroyed"} \cup held
       ret == {c \in DOMAIN w.led : w.led[c] = "returned"}
       nzheld == Cardinality({p \in (DOMAIN w.comp) \X w.issued : w.zst[p[1]] /\ p[2] \in DOMAIN w.comp[p[1]]})
-      toSet(q) == {q[i] : i \in 1..Len(q)}
+      P == IF w.fault THEN "C19" ELSE "C08"
   IN [w |-> w,
-      f |-> (IF toSet(L.destroyed) # des THEN {F("C08", "destroyed set differs", <<(toSet(L.destroyed) \ des), (des \ toSet(L.destroyed))>>)} ELSE {})
-       \cup (IF toSet(L.returned) # ret THEN {F("C08", "returned set differs", <<(toSet(L.returned) \ ret), (ret \ toSet(L.returned))>>)} ELSE {})
-       \cup (IF L.held # <<>> THEN {F("C08", "values leaked (still held after the world was dropped)", L.held)} ELSE {})
-       \cup (IF L.anomalies # <<>> THEN {F("C08", "double drop / drop of unknown value", L.anomalies)} ELSE {})
-       \cup (IF L.zlib # w.zdes + nzheld \/ L.zharn # w.zret THEN {F("C08", "zero-sized component drop count", <<L.zlib, w.zdes + nzheld, L.zharn, w.zret>>)} ELSE {})]
+      f |-> (IF L.anomalies # <<>> THEN {F(P, "double drop / drop of unknown value", L.anomalies)} ELSE {})
+       \cup (IF w.fault THEN {}   \* once a destructor has panicked leaks are allowed and L0's ledger is only a lower bound
+             ELSE (IF SeqToSet(L.destroyed) # des THEN {F("C08", "destroyed set differs (extra, missing)", <<(SeqToSet(L.destroyed) \ des), (des \ SeqToSet(L.destroyed))>>)} ELSE {})
+             \cup (IF SeqToSet(L.returned) # ret THEN {F("C08", "returned set differs (extra, missing)", <<(SeqToSet(L.returned) \ ret), (ret \ SeqToSet(L.returned))>>)} ELSE {})
+             \cup (IF L.held # <<>> THEN {F("C08", "values leaked (still held after the world was dropped)", L.held)} ELSE {})
+             \cup (IF L.zlib # w.zdes + nzheld \/ L.zharn # w.zret THEN {F("C08", "zero-sized component drop count (lib, expected, harness, expected)", <<L.zlib, w.zdes + nzheld, L.zharn, w.zret>>)} ELSE {}))]
 
 \* a panic escaping library code where none is allowed
-PanicProp(ev) ==
+PanicProp(w, ev) ==
+  IF w.fault THEN "C19" ELSE
   CASE ev.in \in {"Created"} -> "C01"
     [] ev.in \in {"Delete", "DeleteBatch", "EDelete", "DeleteAll"} -> "C02"
     [] ev.in \in {"MaintainBegin", "MaintainEnd", "LazyRun", "LazyQueue"} -> "C09"
-    [] ev.in \in {"SOp"} -> "C04"
+    [] ev.in \in {"SOp", "WOp"} -> "C04"
     [] ev.in \in {"DropWorld"} -> "C08"
     [] OTHER -> "C02"
 
-Panic(w, ev) == [w |-> w, f |-> {F(PanicProp(ev), "panic escaped from library code", <<ev.in, ev.msg>>)}]
+Panic(w, ev) == [w |-> w, f |-> {F(PanicProp(w, ev), "panic escaped from library code", <<ev.in, ev.msg>>)}]
 
 Dispatch(w, ev) ==
   CASE ev.op = "Created"       -> Created(w, ev)
+    [] ev.op = "Prealloc"      -> Prealloc(w, ev)
     [] ev.op = "Delete"        -> Delete(w, ev)
     [] ev.op = "DeleteBatch"   -> DeleteBatch(w, ev)
     [] ev.op = "EDelete"       -> EDelete(w, ev)
@@ -331,14 +508,15 @@ Dispatch(w, ev) ==
     [] ev.op = "MaintainEnd"   -> MaintainEnd(w, ev)
     [] ev.op = "LazyQueue"     -> LazyQueue(w, ev)
     [] ev.op = "SOp"           -> SOp(w, ev)
+    [] ev.op = "WOp"           -> WOp(w, ev)
     [] ev.op = "DropWorld"     -> DropWorld(w, ev)
     [] ev.op = "Panic"         -> Panic(w, ev)
     [] ev.op = "Nop"           -> [w |-> w, f |-> {}]
 
-\* Step: returns [w, f] with f a set of [p, m, d] records
+\* Step: returns [w, f] with f a set of <<property, message, detail>>
 Step(w, ev) ==
   IF ev.op = "Reset" THEN [w |-> W0(ev.cfg), f |-> {}]
   ELSE LET r == Dispatch(w, ev)
            of == ObsFlags(r.w, ev)
-       IN [w |-> r.w, f |-> r.f \cup of]
+       IN [w |-> AfterObs(r.w, ev), f |-> r.f \cup of]
 =============================================================================
